@@ -416,9 +416,24 @@ pub fn snapshot<G: GraphLike>(g: &G) -> Result<Snapshot, String> {
 pub struct IdPlan {
     /// sort keys deciding the insertion order of the model vertices (missing = index order)
     pub order: Vec<u16>,
-    /// number of dummy vertices (0..=2) inserted before each model vertex and removed afterwards,
-    /// leaving holes (vector backend) / unused names (hash backend)
+    /// gap code per model vertex: the number of dummy vertices inserted before it and removed
+    /// afterwards, leaving holes (vector backend) / unused names (hash backend).  Codes 0..=2 are
+    /// literal; 3.. select long strides (see [`gap_count`]) so that vertex names lie far apart
+    /// or coincide modulo a power of two
     pub gaps: Vec<u8>,
+}
+
+pub fn gap_count(code: u8) -> usize {
+    match code {
+        0..=2 => code as usize,
+        3 => 63,
+        4 => 31,
+        5 => 127,
+        6 => 255,
+        7 => 64,
+        8 => 62,
+        _ => 2,
+    }
 }
 
 pub fn mscalar_to_q(s: &MScalar) -> Scalar4 {
@@ -457,8 +472,13 @@ pub fn build<G: GraphLike>(d: &Diag, plan: &IdPlan) -> (G, Vec<V>) {
     let mut g = G::new();
     let mut ids = vec![usize::MAX; n];
     let mut dummies = vec![];
+    // a uniform long-stride plan extends to vertices beyond its length (planted patterns)
+    let fill = match plan.gaps.first() {
+        Some(&c) if c >= 3 && plan.gaps.iter().all(|&x| x == c) => c,
+        _ => 0,
+    };
     for &i in &order {
-        let gap = plan.gaps.get(i).copied().unwrap_or(0).min(2);
+        let gap = gap_count(plan.gaps.get(i).copied().unwrap_or(fill));
         for _ in 0..gap {
             dummies.push(g.add_vertex(VType::Z));
         }
